@@ -69,7 +69,8 @@ def _mk_circuit(inp):
     from qutip_qip.circuit import QubitCircuit
     from qutip_qip.operations import Gate
     from qutip_qip.operations.gateclass import GATE_CLASS_MAP
-    qc = QubitCircuit(inp["N"], num_cbits=1)
+    users = inp.get("users") or {}
+    qc = QubitCircuit(inp["N"], num_cbits=1, user_gates={n: _user_matrix for n in users} or None)
     for idx, (name, targets, controls, k) in enumerate(inp["gates"]):
         if name.startswith("M:"):   # a measurement: ["M:<name>", targets, [], classical_store]
             qc.add_measurement(name[2:], targets=list(targets), classical_store=k)
@@ -80,6 +81,15 @@ def _mk_circuit(inp):
         form = inp.get("form", "name")
         if form == "mixed":
             form = ("name", "generic", "class")[(idx + len(inp["gates"])) % 3]
+        cont = inp.get("cont")
+        if cont:   # index containers other than list: only a generic Gate object keeps them as given
+            import numpy as np
+            if cont == "mixed":
+                cont = ("tuple", "ndarray", "npint", "list")[(idx + len(inp["gates"])) % 4]
+            conv = {"tuple": tuple, "ndarray": np.array, "npint": lambda l: [np.int64(x) for x in l], "list": list}[cont]
+            t = conv(t) if t is not None else None
+            c = conv(c) if c is not None else None
+            form = "generic"
         if form == "generic":      # a plain Gate object carrying the name (what the library's own passes emit)
             qc.add_gate(Gate(name, targets=t, controls=c, arg_value=a))
         elif form == "class" and name in GATE_CLASS_MAP:   # an instance of the dedicated gate class
@@ -92,6 +102,35 @@ def _mk_circuit(inp):
         else:
             qc.add_gate(name, targets=t, controls=c, arg_value=a)
     return qc
+
+
+def _user_matrix():
+    """a user-defined two-qubit gate that is NOT symmetric in its two qubits"""
+    import numpy as np
+    import qutip
+    mat = np.diag([1, 1j, -1, 1]).astype(complex)
+    mat[[1, 2]] = mat[[2, 1]]
+    return qutip.Qobj(mat, dims=[[2, 2], [2, 2]])
+
+
+# user gates whose names are case variants of names the routers handle: NOT handled (names are compared exactly)
+USER_NAMES = ["Swap", "iswap", "Iswap", "swapalpha", "Sqrtswap", "berkeley", "cnot", "Csign", "MYGATE"]
+
+
+def ring_edge_nonlist(inp):
+    """OPEN finding ring-edge-nonlist-containers: circular to_chain_structure re-emits a CNOT/CSIGN that lies on the
+    closing edge of the ring (|control - target| = N-1 > N//2) with add_gate(name, gate.targets, gate.controls); a
+    non-list container (tuple, ndarray) is then wrapped / refused by the gate constructor"""
+    if inp.get("fn") != "tcs" or inp.get("setup") != "circular" or inp.get("cont") in (None, "list"):
+        return False
+    N = inp["N"]
+    cont = inp["cont"]
+    for idx, g in enumerate(inp["gates"]):
+        cg = cont if cont != "mixed" else ("tuple", "ndarray", "npint", "list")[(idx + len(inp["gates"])) % 4]
+        if g[0] in CTRL and len(g[1] or []) == 1 and len(g[2] or []) == 1 and cg in ("tuple", "ndarray") \
+                and abs(g[1][0] - g[2][0]) == N - 1 and N - 1 > N // 2:
+            return True
+    return False
 
 
 PIPE_BASES = {"resolve": None, "resolve-csign": ["CSIGN", "RX", "RY", "RZ"], "resolve-iswap": ["ISWAP", "RX", "RY", "RZ"],
@@ -110,9 +149,9 @@ def prepare(inp):
             qc = qc.adjacent_gates()
         else:
             qc = qc.resolve_gates() if PIPE_BASES[pipe] is None else qc.resolve_gates(basis=PIPE_BASES[pipe])
-    if not pipe and "form" not in inp:
+    if not pipe and "form" not in inp and "cont" not in inp:
         return inp, qc
-    eff = {k: v for k, v in inp.items() if k not in ("pipe", "form")}
+    eff = {k: v for k, v in inp.items() if k not in ("pipe", "form", "cont")}
     eff["gates"] = _canon_gates(qc.gates)   # the names the objects really carry (SWAPALPHA(...) is named "SWAPALPHA")
     return eff, qc
 
@@ -139,6 +178,23 @@ def _canon_arg(a):
     return 1000000 + zlib.crc32(r.encode()) % 1000000
 
 
+def _ints(seq):
+    """values of an index container (list, tuple, ndarray, numpy ints); anything that is not an integer is kept visible"""
+    if seq is None:
+        return []
+    out = []
+    try:
+        it = list(seq)
+    except TypeError:
+        it = [seq]
+    for x in it:
+        try:
+            out.append(int(x))
+        except Exception:
+            out.append("bad:" + repr(x)[:40])
+    return out
+
+
 def _canon_gates(gates):
     from qutip_qip.operations import Measurement
     out = []
@@ -149,8 +205,7 @@ def _canon_gates(gates):
         name = g.name if isinstance(g.name, str) else "obj:" + type(g.name).__name__
         t = getattr(g, "targets", None)
         c = getattr(g, "controls", None)
-        out.append([name, [int(x) for x in t] if t is not None else [],
-                    [int(x) for x in c] if c is not None else [], _canon_arg(getattr(g, "arg_value", None))])
+        out.append([name, _ints(t), _ints(c), _canon_arg(getattr(g, "arg_value", None))])
     return out
 
 
@@ -216,6 +271,8 @@ def oracle(inp, status, out_gates, out_circ, dense_max, in_circ=None):
     for g in out_gates:
         name, t, c, k = g
         qs = t + c
+        if any(not isinstance(q, int) for q in qs):
+            return [("range: a qubit index of the routed circuit is not an integer", g, "integer indices in [0,%d)" % N)]
         if any((q < 0 or q >= N) for q in qs):
             fails.append(("range: qubit index outside the register", g, "all indices in [0,%d)" % N))
         elif name in HANDLED and len(qs) == 2 and not _ring_adjacent(setup, N, qs[0], qs[1]):
@@ -522,6 +579,34 @@ def gen_inputs(ctx):
             add({"fn": fn, "setup": setup, "N": N,
                  "gates": [["SWAPALPHA", [0, N - 1], [], 4], ["iSWAP", [N - 1, 1], [], None], ["SWAPalpha", [N - 1, 0], [], 4],
                            one_gate("CNOT", 0, N - 1), ["iSWAP", [1, N - 1], [], None]]}, "alias")
+    # index containers: a generic Gate object keeps targets/controls as given (list, tuple, ndarray, numpy ints);
+    # the routers must read the VALUES, whatever the container
+    for N in range(2, ctx.n(5, 7) + 1):
+        for a in range(N):
+            for b in range(N):
+                if a == b:
+                    continue
+                for kind in ("CNOT", "CSIGN", "ISWAP"):
+                    for cont in ("tuple", "ndarray", "npint"):
+                        for fn, setup in FNS:
+                            add({"fn": fn, "setup": setup, "N": N, "gates": [one_gate(kind, a, b)], "cont": cont}, "containers")
+    for _ in range(ctx.n(150, 1200)):
+        N = rng.choice([3, 4, 5, 5, 6, 6, 7])
+        fn, setup = rng.choice(FNS)
+        add({"fn": fn, "setup": setup, "N": N, "gates": random_reuse_circuit(rng, N),
+             "cont": rng.choice(["tuple", "ndarray", "npint", "mixed"])}, "containers")
+    # user gates (own, non-symmetric matrix) whose names are case variants of routed names: names are compared exactly,
+    # so they are NOT handled and must come out unchanged, on the same ORDERED targets
+    for N in range(3, ctx.n(5, 6) + 1):
+        for a in range(N):
+            for b in range(N):
+                if a == b:
+                    continue
+                for ui, un in enumerate(USER_NAMES):
+                    fn, setup = FNS[(a + b + ui) % 3]
+                    add({"fn": fn, "setup": setup, "N": N, "users": {un: "asym"},
+                         "gates": [["SNOT", [a], [], None], [un, [a, b], [], None], one_gate("ISWAP", 0, 2),
+                                   [un, [b, a], [], None]]}, "user-gates")
     # pipelines: the output of one library pass (generic Gate objects, arbitrary angles) is fed to the router
     pipes = list(PIPE_BASES) + ["adj"]
     for _ in range(ctx.n(250, 1500)):
@@ -596,7 +681,7 @@ def correspond(ctx):
     impl = [run_impl(i, p) if p is not None else ("unbuildable", "prepare failed", None) for i, p in zip(inputs, prepared)]
     # the model sees only (name, targets, controls, arg) of the circuit handed to the router: the same for every
     # construction form; for a pipeline it is the output of the first pass
-    effs = [(p[0] if p is not None else {k: v for k, v in i.items() if k not in ("pipe", "form")})
+    effs = [(p[0] if p is not None else {k: v for k, v in i.items() if k not in ("pipe", "form", "cont")})
             for i, p in zip(inputs, prepared)]
     model = run_model(effs, "q" if not ctx.thorough else "t")
     ndense = 0
@@ -613,7 +698,10 @@ def correspond(ctx):
             corr.tally("unbuildable")
             continue
         # model vs implementation: exact gate lists
-        if st == "ok":
+        known_class = ring_edge_nonlist(orig_inp)   # open finding: judged by the oracle only (classified there)
+        if known_class:
+            corr.tally("open-finding-class:ring-edge-nonlist-containers")
+        elif st == "ok":
             if mst != "ok" or mout != out:
                 corr.disagree(orig_inp, out, mout if mst == "ok" else "model: rejected", "routed gate list differs from model")
         else:
@@ -680,6 +768,11 @@ def classify(failure):
     inp = failure.get("input") or {}
     what = failure.get("what", "")
     gates = inp.get("gates") or []
+    if inp.get("fn") == "adj" and inp.get("users") and "routed circuit cannot be evaluated" in what:
+        return "adjacent-gates-drops-user-gates"
+    if ring_edge_nonlist(inp) and (what.startswith("range") or what.startswith("router raised")
+                                   or what.startswith("passthrough") or what.startswith("unitary")):
+        return "ring-edge-nonlist-containers"
     if any(g[0] in ALIASES or (g[0] == "SWAPalpha" and inp.get("form") in ("class", "mixed")) for g in gates) and \
             (what.startswith("adjacency") or what.startswith("passthrough") or "cannot be evaluated" in what):
         return "alias-name-not-routed"
